@@ -70,6 +70,24 @@ Proof.
          end.
 Qed.
 
+Lemma hclose_done st id c fullfrag st' :
+  doneJ c -> hclose st id c fullfrag = Some st' -> Post st st' id.
+Proof.
+  intros D H. unfold hclose in H.
+    destruct (f_err c).
+    { apply Some_inj in H; subst st'. apply post_commit; dj. }
+    destruct (f_state c).
+    + apply Some_inj in H; subst st'. apply post_commit; dj.
+    + destruct (negb fullfrag).
+      * apply Some_inj in H; subst st'. apply post_commit; dj.
+      * destruct (negb (f_cur (upd_f c FWaiting false (f_cur c) (f_first c)))); [discriminate|].
+        apply Some_inj in H; subst st'. apply post_flush1; dj.
+    + destruct (negb (f_cur c)); [discriminate|].
+      apply Some_inj in H; subst st'. apply post_flush1; dj.
+    + apply Some_inj in H; subst st'. apply post_commit; dj.
+    + apply Some_inj in H; subst st'. apply post_commit; dj.
+Qed.
+
 Lemma hstep_done st id c l st' :
   get id (calls st) = Some c -> doneJ c -> hstep st id c l = Some st' -> Post st st' id.
 Proof.
@@ -105,31 +123,20 @@ Proof.
       apply Some_inj in H; subst st'. apply post_commit; dj.
     + apply Some_inj in H; subst st'. apply post_commit; dj.
   - (* HClose *)
-    destruct (f_err c).
-    { apply Some_inj in H; subst st'. apply post_commit; dj. }
-    destruct (f_state c).
-    + apply Some_inj in H; subst st'. apply post_commit; dj.
-    + destruct (negb fullfrag).
-      * apply Some_inj in H; subst st'. apply post_commit; dj.
-      * destruct (negb (f_cur (upd_f c FWaiting false (f_cur c) (f_first c)))); [discriminate|].
-        apply Some_inj in H; subst st'. apply post_flush1; dj.
-    + destruct (negb (f_cur c)); [discriminate|].
-      apply Some_inj in H; subst st'. apply post_flush1; dj.
-    + apply Some_inj in H; subst st'. apply post_commit; dj.
-    + apply Some_inj in H; subst st'. apply post_commit; dj.
+    eapply hclose_done; eassumption.
   - (* HDone *)
     destruct (done_sending c) as [c1 chk] eqn:Ds. apply done_sending_spec in Ds.
     apply Some_inj in H; subst st'. apply post_commit; dj.
   - (* HSysErr *)
     destruct (w_err c).
     { apply Some_inj in H; subst st'. apply post_commit; dj. }
+    set (st0 := if g_dones c then add_misused st id else st) in *.
+    destruct (conn_send_syserr st0 id full) as [st1 ok] eqn:Cs.
     destruct (done_sending (upd_w c false WComplete (rd_err c))) as [c1 chk] eqn:Ds.
     apply done_sending_spec in Ds. fields.
-    set (st0 := if g_dones c then add_misused st id else st) in *.
-    destruct (conn_send_syserr (commit st0 id c1 chk) id full) as [st2 ok] eqn:Cs.
     apply Some_inj in H; subst st'.
-    pose proof (send_syserr_fields (commit st0 id c1 chk) id full) as (_ & _ & _ & _ & S).
-    rewrite Cs in S. cbn [fst] in S. rewrite sent_commit in S.
+    pose proof (send_syserr_fields st0 id full) as (_ & _ & _ & _ & S).
+    rewrite Cs in S. cbn [fst] in S.
     assert (S0 : sent st0 = sent st) by (unfold st0; destruct (g_dones c); reflexivity).
     split.
     + eexists. split; [apply get_commit_same|]. dj.
@@ -144,6 +151,10 @@ Proof.
   - (* HBlackhole *)
     apply Some_inj in H; subst st'. apply post_commit.
     eapply doneJ_wsame; [apply wsame_cancel | exact D].
+  - (* HHelperWrite *)
+    rewrite helper_closes_eq in H. destruct ok.
+    + eapply hclose_done; eassumption.
+    + apply Some_inj in H; subst st'. apply post_commit; dj.
 Qed.
 
 (* ---- every step keeps a done call done, and adds at most one error frame for its id ---------- *)
